@@ -29,6 +29,8 @@ import (
 	"time"
 
 	"github.com/krotik/ecal/engine"
+	"github.com/krotik/ecal/interpreter"
+	"github.com/krotik/ecal/parser"
 	"github.com/krotik/ecal/verifhook"
 )
 
@@ -124,6 +126,70 @@ func c10Join(xs []string, sep string) string {
 		return "-"
 	}
 	return strings.Join(xs, sep)
+}
+
+// ---------------------------------------------------------------- S: the same through ECAL sinks
+
+var (
+	c10SinkMu   sync.Mutex
+	c10SinkLog  []string
+	c10SinkKids int
+)
+
+// c10RunSinks declares one sink per rule (`priority N`, `raise` for a failing one, `addEvent` for a
+// child event) and adds the event from ECAL code; the interpreter's processor has fail-on-first-error
+// set by default (interpreter/provider.go).
+func c10RunSinks(specs []c10Rule) string {
+	var src strings.Builder
+	for i, sp := range specs {
+		fmt.Fprintf(&src, "sink s%d\n  kindmatch [\"e\"],\n  priority %d\n{\n  x.c10log(%d)\n", i, sp.prio, sp.prio)
+		if sp.kids {
+			src.WriteString("  addEvent(\"kid\", \"c\", {})\n")
+		}
+		if sp.fails {
+			src.WriteString("  raise(\"scripted\", \"failure\")\n")
+		}
+		src.WriteString("}\n")
+	}
+	src.WriteString("sink kid\n  kindmatch [\"c\"]\n{\n  x.c10kid(1)\n}\naddEventAndWait(\"ev\", \"e\", {})\n")
+	c10SinkMu.Lock()
+	c10SinkLog, c10SinkKids = nil, 0
+	c10SinkMu.Unlock()
+	erp := interpreter.NewECALRuntimeProvider("c10", nil, &memLog{})
+	defer erp.Cron.Stop()
+	ast, err := parser.ParseWithRuntime("c10", src.String(), erp)
+	if err != nil {
+		return "ERR " + oneLine(err.Error())
+	}
+	if err = ast.Runtime.Validate(); err != nil {
+		return "ERR " + oneLine(err.Error())
+	}
+	res, err := ast.Runtime.Eval(newGlobalScope(), make(map[string]interface{}), erp.NewThreadID())
+	erp.Processor.Finish()
+	if err != nil {
+		return "ERR " + oneLine(err.Error())
+	}
+	var errPrios []int
+	if items, ok := res.([]interface{}); ok {
+		for _, it := range items {
+			if m, ok := it.(map[interface{}]interface{}); ok {
+				if em, ok := m["errors"].(map[interface{}]interface{}); ok {
+					for name := range em {
+						i, _ := strconv.Atoi(strings.TrimPrefix(fmt.Sprint(name), "s"))
+						errPrios = append(errPrios, specs[i].prio)
+					}
+				}
+			}
+		}
+	}
+	sort.Ints(errPrios)
+	es := make([]string, len(errPrios))
+	for i, p := range errPrios {
+		es[i] = strconv.Itoa(p)
+	}
+	c10SinkMu.Lock()
+	defer c10SinkMu.Unlock()
+	return "exec=" + c10Join(c10SinkLog, ".") + " err=" + c10Join(es, ".") + " kids=" + strconv.Itoa(c10SinkKids)
 }
 
 // ---------------------------------------------------------------- B: bookkeeping
@@ -490,7 +556,21 @@ func init() {
 	register("C10", &Prop{
 		Timeout:          20 * time.Second,
 		NoRestartOnPanic: false,
-		Setup:            func() { verifhook.SetHandler(c10Hook) },
+		Setup: func() {
+			verifhook.SetHandler(c10Hook)
+			registerX("c10log", func(args []interface{}) (interface{}, error) {
+				c10SinkMu.Lock()
+				defer c10SinkMu.Unlock()
+				c10SinkLog = append(c10SinkLog, fmt.Sprint(args[0]))
+				return nil, nil
+			})
+			registerX("c10kid", func(args []interface{}) (interface{}, error) {
+				c10SinkMu.Lock()
+				defer c10SinkMu.Unlock()
+				c10SinkKids++
+				return nil, nil
+			})
+		},
 		Gen: func(g *Gen) {
 			// corpus: the inputs of the repaired defects first
 			for _, c := range []string{
@@ -501,6 +581,7 @@ func init() {
 				"R 1 0:0:1 1:0:0 2:1:1 3:0:0 4:1:0 5:0:0",
 				"R 0 0:0:1 1:0:0 2:1:1 3:0:0 4:1:0 5:0:0",
 				"R 1 5:0:0 4:0:0 3:0:0 2:0:0 1:0:0 0:0:0",
+				"S 3:0:0 0:0:1 2:1:1 1:0:0 5:0:0 4:1:0",
 				"K 1 r:R:1:0,0:3:1:0,0:1:1:1,0:2:0:0,2:0:1:0|r:5:1:0,r:-2:1:0",
 				"K 1 r:3:1:0,r:1:1:0,r:1:1:0,r:0:1:0,r:-1:1:0,r:2:0:0",
 				"K 4 r:R:1:0,0:3:1:0,0:1:1:1,0:2:0:0,2:0:1:0|r:5:1:0,r:-2:1:0",
@@ -533,6 +614,11 @@ func init() {
 					g.Count("rules: priorities 0..5")
 					g.Emit(c10RulePayload(true, rs))
 					g.Emit(c10RulePayload(false, rs))
+					if rep%4 == 0 {
+						// the same rules as ECAL sinks (flag = the interpreter's default)
+						g.Count("sinks: priorities 0..5")
+						g.Emit("S" + strings.TrimPrefix(c10RulePayload(true, rs), "R 1"))
+					}
 					if second >= 0 {
 						break
 					}
@@ -580,6 +666,14 @@ func init() {
 					rs = append(rs, c10Rule{p, x[1] == "1", x[2] == "1"})
 				}
 				return c10RunRules(f[1] == "1", rs)
+			case "S":
+				var rs []c10Rule
+				for _, s := range f[1:] {
+					x := strings.Split(s, ":")
+					p, _ := strconv.Atoi(x[0])
+					rs = append(rs, c10Rule{p, x[1] == "1", x[2] == "1"})
+				}
+				return c10RunSinks(rs)
 			case "B":
 				return c10RunBook(f[1:])
 			case "K":
